@@ -45,6 +45,8 @@ def run(ctx):
             why = "Decode consumed %d of %d bytes" % (o["consumed"], len(o["hex"]) // 2)
         elif not o.get("resame"):
             why = "the decoded value is not a fixed point of decode.encode (re-encode: %s)" % o.get("re")
+        elif o.get("svc", "ok") != "ok":
+            why = "ua.DecodeService differs from type id + registry lookup + ua.Decode: " + o["svc"][:120]
         if why is None and norm_text(o["val"]) != norm_text(o["dval"]):
             why = "decoded value differs from the encoded value beyond the documented normalisations"
         if why is None:
@@ -109,6 +111,7 @@ def run(ctx):
         "variant_shapes_hit": len(kinds),
         "traces_validated_against_impl": len(obs) if corr_ok else len(obs) - len(mism),
         "model_impl_mismatches": len(mism),
+        "service_messages_through_DecodeService": sum(1 for o in obs if "svc" in o),
         "values_satisfying_theorem_hypothesis_rwf": wf_n,
         "values_outside_rwf_not_in_known_class": len(wf_out),
     })
